@@ -45,8 +45,7 @@ func (ft *FT) stmt(s ast.Stmt) {
 		ft.nested(func() { ft.block(s.Body) })
 	case *ast.TypeSwitchStmt:
 		ft.stmt(s.Init)
-		ft.stmt(s.Assign)
-		ft.nested(func() { ft.block(s.Body) })
+		ft.typeSwitch(s)
 	case *ast.CaseClause:
 		for _, e := range s.List {
 			if _, ok := ft.typeExpr(e); !ok {
@@ -60,7 +59,7 @@ func (ft *FT) stmt(s ast.Stmt) {
 		ft.stmt(s.Stmt)
 	case *ast.BranchStmt, *ast.EmptyStmt:
 	case *ast.DeferStmt:
-		ft.nested(func() { ft.evalCall(s.Call) })
+		ft.deferred = append(ft.deferred, deferredCall{call: s.Call, may: ft.depth > 0})
 	case *ast.GoStmt:
 		// the library starts no goroutines; if it ever does, give up
 		ft.write(unknownSet.copy(), "")
@@ -71,7 +70,7 @@ func (ft *FT) stmt(s ast.Stmt) {
 
 func (ft *FT) rangeStmt(s *ast.RangeStmt) {
 	bt, set := ft.base(s.X)
-	ft.read(set)
+	ft.readRef(set)
 	ft.nested(func() {
 		kt := identT("int")
 		et := bt.elem()
@@ -96,5 +95,65 @@ func (ft *FT) rangeStmt(s *ast.RangeStmt) {
 			ft.assign(s.Value, ev, define)
 		}
 		ft.block(s.Body)
+	})
+}
+
+// typeSwitch: `switch x := e.(type)`; in a clause with a single type T the
+// bound variable has type T (a fresh copy for value types), otherwise the
+// type of e.  All clauses may run.
+func (ft *FT) typeSwitch(s *ast.TypeSwitchStmt) {
+	var bound *ast.Ident
+	var subject ast.Expr
+	switch a := s.Assign.(type) {
+	case *ast.AssignStmt:
+		if id, ok := a.Lhs[0].(*ast.Ident); ok {
+			bound = id
+		}
+		subject = a.Rhs[0]
+	case *ast.ExprStmt:
+		subject = a.X
+	}
+	if ta, ok := strip(subject).(*ast.TypeAssertExpr); ok {
+		subject = ta.X
+	}
+	v := ft.eval(subject)
+	ft.nested(func() {
+		for _, st := range s.Body.List {
+			cc, ok := st.(*ast.CaseClause)
+			if !ok {
+				continue
+			}
+			if bound != nil && bound.Obj != nil {
+				t := v.T
+				if len(cc.List) == 1 {
+					if id, ok := cc.List[0].(*ast.Ident); !ok || id.Name != "nil" {
+						t = Type{E: cc.List[0], Pkg: ft.pk.Dir}
+					}
+				}
+				vr := ft.clauseV[cc]
+				if vr == nil {
+					vr = &Var{T: t, Pts: RootSet{}}
+					ft.clauseV[cc] = vr
+				}
+				refs := RootSet{}
+				if t.hasRef() {
+					refs = v.Pts
+				}
+				if t.isObjectValue() {
+					r := ft.alloc(cc)
+					vr.Obj = &r
+					ft.addCont(r, "*", refs)
+				} else if vr.Pts.addAll(refs) {
+					ft.changed = true
+				}
+				ft.vars[bound.Obj] = vr
+			}
+			for _, b := range cc.Body {
+				ft.stmt(b)
+			}
+		}
+		if bound != nil && bound.Obj != nil {
+			delete(ft.vars, bound.Obj)
+		}
 	})
 }
